@@ -5,6 +5,8 @@ from ..core import Suite
 STYLES = ["saturated", "saturated", "mixed"]
 SUITES = [Suite("prio2-det", prio.prio_generate(0.0, STYLES), prio.prio_project("C05"), prio.monitor_prio("C05"),
                 rule=prio.PRIO_RULE, version="v2", impl_ints=False, batch_timeout=600, shrink=prio.shrink_prio2)]
+SUITES.append(Suite("prio1-saturated", prio.prio1_generate(0.0, 0.0, ["saturated"]), prio.prio1_project("C05"), prio.monitor_prio1("C05"),
+                    rule=prio.PRIO1_RULE, version="v1", impl_ints=False, batch_timeout=300, shrink=prio.shrink_prio1))
 ASSUMPTIONS = [
     "model: the scheduling goroutine as a program-counter machine (Prio2.sched_step) over FIFO-list channels; the driver of Prio2Sim.v "
     "(run to a blocked state / settle to a fixpoint) is used only for the correspondence",
